@@ -3335,6 +3335,42 @@ def inline_record_methods(tree: ast.Module) -> int:
             a = m.args
             stmt_form = len(body) == 1 and isinstance(body[0], ast.Expr) and isinstance(body[0].value, ast.Call)
             static = len(m.decorator_list) == 1 and ast.unparse(m.decorator_list[0]) == 'staticmethod'
+            clsm = len(m.decorator_list) == 1 and ast.unparse(m.decorator_list[0]) == 'classmethod' and bool(m.args.args)
+            if clsm:
+                # `@classmethod def claim(cls): return cls(a, b)` called as `Cls.claim()`: the expression with the class for `cls`
+                cbody = [x for x in m.body if not (isinstance(x, ast.Expr) and isinstance(x.value, ast.Constant))]
+                ca = m.args
+                uses_c = [z for z in ast.walk(tree) if isinstance(z, ast.Attribute) and z.attr == m.name]
+                pars_c: Dict[int, ast.AST] = {}
+                for z in ast.walk(tree):
+                    for ch in ast.iter_child_nodes(z):
+                        pars_c[id(ch)] = z
+                okc = (len(cbody) == 1 and isinstance(cbody[0], ast.Return) and cbody[0].value is not None and len(ca.args) == 1
+                       and not ca.vararg and not ca.kwarg and not ca.kwonlyargs and m.name not in common and bool(uses_c)
+                       and all(isinstance(u.value, ast.Name) and u.value.id == cls.name and isinstance(pars_c.get(id(u)), ast.Call)
+                               and pars_c[id(u)].func is u and not pars_c[id(u)].args and not pars_c[id(u)].keywords for u in uses_c))
+                if okc:
+                    cn = ca.args[0].arg
+                    for u in uses_c:
+                        c = pars_c[id(u)]
+                        new = copy.deepcopy(cbody[0].value)
+                        for z in ast.walk(new):
+                            if isinstance(z, ast.Name) and z.id == cn:
+                                z.id = cls.name
+                            if hasattr(z, 'lineno'):
+                                z.lineno, z.col_offset = c.lineno, c.col_offset
+                                z.end_lineno, z.end_col_offset = getattr(c, 'end_lineno', c.lineno), getattr(c, 'end_col_offset', c.col_offset)
+                        par = pars_c[id(c)]
+                        for fld, val in ast.iter_fields(par):
+                            if val is c:
+                                setattr(par, fld, new)
+                            elif isinstance(val, list):
+                                for i_, x_ in enumerate(val):
+                                    if x_ is c:
+                                        val[i_] = new
+                        count += 1
+                    cls.body.remove(m)
+                continue
             if (m.decorator_list and not static) or len(body) != 1 or not ((isinstance(body[0], ast.Return) and body[0].value is not None) or stmt_form) \
                     or a.vararg or a.kwarg or a.kwonlyargs or a.posonlyargs or a.defaults or (not a.args and not static) or m.name in common \
                     or m.name.startswith('__'):
@@ -3614,6 +3650,76 @@ def fold_none_fields(tree: ast.Module) -> int:
                 if changed:
                     break
     return count
+
+
+def normalise_call_spellings(tree: ast.Module) -> int:
+    """Spellings of one call: (1) defaults written out - `lock.acquire(blocking=True, timeout=-1)`, `q.get(block=True,
+    timeout=None)`, `future.result(timeout=None)`, `thread.join(timeout=None)`, `event.wait(timeout=None)` are the calls
+    without arguments; (2) keywords for the leading positional parameters of `wait_for(aw, timeout=t)` and
+    `lock.acquire(blocking=b, timeout=t)` are those positions; (3) a callback with its arguments pre-bound by
+    `functools.partial` and handed to a scheduler that takes `callback, *args` - `call_soon_threadsafe(partial(f, x))`,
+    `call_later(t, partial(f, x))`, `run_in_executor(pool, partial(f, x))`, `pool.submit(partial(f, x))` - is the
+    scheduler called with `f, x` (no keywords in the partial)."""
+    count = [0]
+    partial_names = {'partial'}
+    for st in ast.walk(tree):
+        if isinstance(st, ast.ImportFrom) and st.module == 'functools':
+            for al in st.names:
+                if al.name == 'partial':
+                    partial_names.add(al.asname or al.name)
+
+    def is_partial(e) -> bool:
+        return isinstance(e, ast.Call) and not e.keywords and e.args and not any(isinstance(a, ast.Starred) for a in e.args) and (
+            (isinstance(e.func, ast.Name) and e.func.id in partial_names) or
+            (isinstance(e.func, ast.Attribute) and e.func.attr == 'partial' and isinstance(e.func.value, ast.Name) and e.func.value.id == 'functools'))
+
+    def const(e, v) -> bool:
+        return isinstance(e, ast.Constant) and e.value is v if v is None or isinstance(v, bool) else (
+            (isinstance(e, ast.Constant) and e.value == v and not isinstance(e.value, bool)) or
+            (isinstance(e, ast.UnaryOp) and isinstance(e.op, ast.USub) and isinstance(e.operand, ast.Constant) and -e.operand.value == v))
+
+    DEFAULTS = {'acquire': [('blocking', True), ('timeout', -1)], 'get': [('block', True), ('timeout', None)], 'result': [('timeout', None)],
+                'join': [('timeout', None)], 'wait': [('timeout', None)], 'put': None}
+    SCHED = {'call_soon_threadsafe': 0, 'call_soon': 0, 'call_later': 1, 'call_at': 1, 'run_in_executor': 1, 'submit': 0}
+
+    class R(ast.NodeTransformer):
+        def visit_Call(self, n: ast.Call):
+            self.generic_visit(n)
+            f = n.func
+            attr = f.attr if isinstance(f, ast.Attribute) else (f.id if isinstance(f, ast.Name) else None)
+            if isinstance(f, ast.Attribute) and DEFAULTS.get(attr) and (n.args or n.keywords) and not any(isinstance(a, ast.Starred) for a in n.args) \
+                    and not any(k.arg is None for k in n.keywords):
+                spec = DEFAULTS[attr]
+                if len(n.args) <= len(spec):
+                    given = {nm: a for (nm, _), a in zip(spec, n.args)}
+                    ok = True
+                    for k in n.keywords:
+                        if k.arg not in dict(spec) or k.arg in given:
+                            ok = False
+                        given[k.arg] = k.value
+                    if ok and all(const(given[nm], dv) for nm, dv in spec if nm in given):
+                        n.args, n.keywords = [], []
+                        count[0] += 1
+                        return n
+                    if ok and attr == 'acquire' and n.keywords:
+                        # keywords for the leading positions
+                        order = [nm for nm, _ in spec]
+                        if all(nm in given for nm in order[:len(given)]):
+                            n.args, n.keywords = [given[nm] for nm in order[:len(given)]], []
+                            count[0] += 1
+                            return n
+            if attr == 'wait_for' and len(n.args) == 1 and len(n.keywords) == 1 and n.keywords[0].arg == 'timeout':
+                n.args, n.keywords = [n.args[0], n.keywords[0].value], []
+                count[0] += 1
+                return n
+            if isinstance(f, ast.Attribute) and attr in SCHED and not n.keywords and len(n.args) == SCHED[attr] + 1 and is_partial(n.args[-1]):
+                inner = n.args[-1]
+                n.args = n.args[:-1] + list(inner.args)
+                count[0] += 1
+                return n
+            return n
+    R().visit(tree)
+    return count[0]
 
 
 def fold_negations(tree: ast.Module) -> int:
